@@ -55,6 +55,26 @@ Theorem C08_rotates_iff_numbersdirect c m t0 off ops i o b :
   = Some (ObsRes 0 (m <? N.of_nat (length (cur_of (s_run m None (firstn i ops)))))%N).
 Proof. exact (numbersdirect_rotates_iff c m t0 off ops i o b). Qed.
 
+Require Import FL.Flw.TsTime FL.Flw.TsNames FL.Flw.TsInv FL.Flw.TsRun FL.Flw.TsTheorems FL.Flw.TsdInv FL.Flw.TsdRun FL.Flw.TsdTheorems.
+(* TimestampsDirect naming: the same greedy partition *)
+Theorem C08_partition_timestampsdirect c m t0 off ops :
+  tsdcfg c (CSize m) -> tag_ok c -> Forall basic_op ops -> Forall tick_ok ops ->
+  (0 <= t0 + ts_e c off)%Z -> (t0 + elapsed ops + ts_e c off < sec_max)%Z -> (N.of_nat (length ops) <= usize_max)%N ->
+  exists keys,
+    tsd_view c (ts_e c off) (wfs (s_w (fst (run (sys0 t0 off) (OStart c :: ops ++ [OStop]))))) keys
+             (expected_files m None (items false ops))
+    /\ keys_ok keys /\ (forall k, In k keys -> (t0 <= fst k <= t0 + elapsed ops)%Z).
+Proof. exact (timestampsdirect_partition c m t0 off ops). Qed.
+
+(* TimestampsDirect naming: a write rotates exactly when the current file already exceeds the limit *)
+Theorem C08_rotates_iff_timestampsdirect c m t0 off ops i o b :
+  tsdcfg c (CSize m) -> tag_ok c -> Forall basic_op ops -> Forall tick_ok ops ->
+  (0 <= t0 + ts_e c off)%Z -> (t0 + elapsed ops + ts_e c off < sec_max)%Z -> (N.of_nat (length ops) <= usize_max)%N ->
+  nth_error ops i = Some o -> (o = OWrite b \/ o = OPlain b) ->
+  nth_error (snd (run (sys0 t0 off) (OStart c :: ops))) (S i)
+  = Some (ObsRes 0 (m <? N.of_nat (length (cur_of (s_run m None (firstn i ops)))))%N).
+Proof. exact (timestampsdirect_rotates_iff c m t0 off ops i o b). Qed.
+
 Check C08_rotates_iff_exceeds.
 Check C08_partition_numbers.
 Print Assumptions C08_rotates_iff_exceeds.
@@ -64,3 +84,7 @@ Check C08_partition_numbersdirect.
 Print Assumptions C08_partition_numbersdirect.
 Check C08_rotates_iff_numbersdirect.
 Print Assumptions C08_rotates_iff_numbersdirect.
+Check C08_partition_timestampsdirect.
+Print Assumptions C08_partition_timestampsdirect.
+Check C08_rotates_iff_timestampsdirect.
+Print Assumptions C08_rotates_iff_timestampsdirect.
